@@ -14,8 +14,13 @@ theorem bind_ok_iff (a : VRes) (f : Unit → VRes) : (a >>= f) = .ok () ↔ a = 
 theorem vOptLen_ok (o : Option Bytes) : vOptLen o = .ok () ↔ Spec.optOk o = true := by
   cases o <;> simp [vOptLen, Spec.optOk, Spec.strOk, okIf_ok]
 
+theorem strFieldOk_eq (b : Bytes) : strFieldOk b = Spec.utf8Ok b := rfl
+
+theorem vOptStr_ok (o : Option Bytes) : vOptStr o = .ok () ↔ Spec.optStrOk o = true := by
+  cases o <;> simp [vOptStr, Spec.optStrOk, strFieldOk_eq, okIf_ok]
+
 theorem vUserProps_ok (u : UserProps) : vUserProps u = .ok () ↔ Spec.upsOk u = true := by
-  cases u <;> simp [vUserProps, Spec.upsOk, Spec.strOk, okIf_ok]
+  cases u <;> simp [vUserProps, Spec.upsOk, strFieldOk_eq, okIf_ok]
 
 theorem isValidTopic_iff (t : Bytes) : isValidTopic t = Spec.topicNameValid t := by
   simp [isValidTopic, Spec.topicNameValid, Spec.hasWildChar, Bool.and_assoc]
